@@ -420,8 +420,8 @@ func main() {
 	}
 	if nRaceScen > 0 {
 		cov["race_detection"] = map[string]any{
-			"method":                      "plain memory accesses of the code under test are announced by the instrumenter; vector clocks over every tracked synchronisation operation; unordered conflicting accesses become scheduling points and the scenario is explored again",
-			"schedule_scenarios_watched":  nRaceScen,
+			"method":                       "plain memory accesses of the code under test are announced by the instrumenter; vector clocks over every tracked synchronisation operation; unordered conflicting accesses become scheduling points and the scenario is explored again",
+			"schedule_scenarios_watched":   nRaceScen,
 			"scenarios_with_racy_accesses": raceScen,
 		}
 	}
